@@ -57,7 +57,8 @@ CHECKS = {
              'list or read another render\'s value; every schedule is replayed with real threads parked before each shared access and '
              'each thread\'s result must be its solo result; at line granularity every single-preemption schedule of compiled '
              'templates, a systematic sample for compiling ones, two preemptions and PCT-random priorities are run with the same oracle; '
-             'the access traces recorded there must be behaviours of DTConc.',
+             'the access traces recorded there must be behaviours of DTConc; earlier requests are served up to the brink of an eviction that '
+             'serving itself reveals; a sampled stage preempts a thread a hundred template calls deep (no enumeration).',
         note='Six templates (every block tag, sort_expr / reverse_expr, batches, shared sub-template, restricted expressions, %()s) with '
              'per-thread namespaces; threads are serialised at source-line granularity by the scheduler (the property\'s granularity).',
         ref='DESIGN.md section 4 C18'),
@@ -102,7 +103,9 @@ CHECKS = {
              'over the whole parameter space of the tier; every behaviour is replayed with counting '
              'iterators/generators/lazy sequences and the per-row pull counts compared; departures, the '
              'behaviours where the machine itself exceeds the strict bound, a sample and random larger '
-             'parameters are validated by TLC against the clause; hangs are caught by a watchdog.',
+             'parameters are validated by TLC against the clause; hangs are caught by a watchdog; also lazy sequences that slice through '
+             'their length, batch parameters of a foreign integer type, guarded renderings with skip_unauthorized and a run of refused '
+             'elements right behind the window.',
         note='An iterator cannot be pulled out of order or twice by construction, so the clause checked is the '
              'bound, monotonicity, termination and (unbatched) pull-all; previous-batches is only exercised for '
              'overlap < size (its loop does not terminate otherwise, for any sequence).',
@@ -197,7 +200,9 @@ CHECKS = {
              'sort / reverse are parameters of the machine; TLC checks Closed, RowsAreChildrenOfExpanded, RowsOnce, OneLinkEach, '
              'ToggleOnly and the codec length arithmetic over all ordered trees of the tier x option records and exports every transition; the '
              'harness drives the real tag along each (cookie + generated link) comparing rows, links and the decoded cookie; '
-             'random larger trees with long / non-ASCII ids and histories up to 40 are validated by TLC; codec round trips.',
+             'random larger trees with long / non-ASCII ids and histories up to 40 are validated by TLC; codec round trips; a link followed '
+             'while the state cookie belongs to another tree (ClickOther); the tree rebuilt for every request, falsy ids; guarded trees with '
+             'skip_unauthorized and rows that cannot be rendered (refused as a whole, or validated against the machine for the tree without them).',
         note='zlib/base64/json trusted; branches / branches_expr / id / nowrap / prefix / urlparam are spellings the machine does not distinguish; ids without a double quote (they are not escaped in the anchors).',
         ref='DESIGN.md section 4 C20'),
     'C17': dict(engine='DTLife',
